@@ -161,11 +161,30 @@ def canary(ctx):
         ctx.violation("library-gives-wrong-answers-after-earlier-inputs", {"kind": "canary"}, {})
 
 
-def query_case(ctx, text, docs):
+_OPT_ENV = []
+
+
+def option_env():
+    """An environment with the documented non-default options of the function extensions switched on."""
+    if not _OPT_ENV:
+        import jsonpath
+        from jsonpath import function_extensions as fx
+
+        env = jsonpath.JSONPathEnvironment()
+        env.function_extensions["typeof"] = fx.TypeOf(single_number_type=False)
+        env.function_extensions["type"] = env.function_extensions["typeof"]
+        _OPT_ENV.append(env)
+    return _OPT_ENV[0]
+
+
+def query_case(ctx, text, docs, options=False):
     import jsonpath
 
     canary(ctx)
     case = {"kind": "query", "text": text, "docs": docs}
+    if options:
+        case["options"] = True
+        jsonpath = _EnvFacade(jsonpath, option_env())
     ctx.evaluation()
     if nesting(text) > 60 or len(text) > 20000:
         ctx.count("skipped_too_deep_or_long")
@@ -184,6 +203,19 @@ def query_case(ctx, text, docs):
         d2 = copy.deepcopy(expand(d))
         o = guarded(lambda: [m.obj for m in c.value.finditer(d2, filter_context=gen.CTX_DEFAULT)])
         classify(ctx, o, (jsonpath.JSONPathError,), "evaluate", dict(case, doc=d))
+
+
+class _EnvFacade:
+    """`jsonpath`-module look-alike whose compile() goes to another environment (error classes from the module)."""
+
+    def __init__(self, mod, env):
+        self._mod, self._env = mod, env
+
+    def compile(self, text):  # noqa: A003
+        return self._env.compile(text)
+
+    def __getattr__(self, name):
+        return getattr(self._mod, name)
 
 
 def pointer_case(ctx, text, docs):
@@ -421,6 +453,18 @@ def run_workload(spec, ctx):
                         query_case(ctx, text, fdocs)
                         n_fn += 1
         ctx.count("function_argument_matrix_queries", n_fn)
+        # the same calls (one argument form each) on numbers at the edge of float semantics, under the default environment
+        # and under one with the functions' documented options switched on
+        inf = float("inf")
+        edge = [[{"a": v, "t": "number"} for v in (inf, -inf, float("nan"), -0.0, 1e308, 5e-324, 2 ** 53 + 1, 10 ** 400, 1.0, 1)] + [inf, float("nan"), [inf], {"k": float("nan")}]]
+        for fn in sorted(_jp.DEFAULT_ENV.function_extensions):
+            for combo in (("@.a",), ("@",), ("@.a", "@.t"), ("@.a", "'number'"), ("@.a", "@.a"), ("@.*",)):
+                call = "%s(%s)" % (fn, ", ".join(combo))
+                for text in ("$[?%s]" % call, "$[?%s == 'int']" % call, "$[?%s == 1 || %s == @.a]" % (call, call), "$..[?%s != 'float']" % call):
+                    query_case(ctx, text, edge)
+                    query_case(ctx, text, edge, options=True)
+        for text in ("$[?@.a == 1]", "$[?@.a > 1e308]", "$[?@.a < @.t]", "$[?@.a in [1, 2.5]]", "$[?@.a =~ /1/]", "$[?@.a == @.a]", "$..[?@ >= 0]", "$[?@.a]"):
+            query_case(ctx, text, edge)
         # values (not texts) with more digits than the interpreter converts to text: in documents, operation values, as
         # operands of filters and functions, in failing and passing tests, at depth
         H, HN = {"$huge": 4400}, {"$hugeneg": 5000}
@@ -506,7 +550,7 @@ def _replay(case, ctx):
         canary(ctx)
         return
     if kind == "query":
-        query_case(ctx, case["text"], [case["doc"]] if "doc" in case else case["docs"])
+        query_case(ctx, case["text"], [case["doc"]] if "doc" in case else case["docs"], options=bool(case.get("options")))
     elif kind in ("pointer", "relative"):
         pointer_case(ctx, case["text"], [case["doc"]] if "doc" in case else case.get("docs", ROOT_DOCS))
     else:
